@@ -9,8 +9,8 @@ Property theorems only (helper lemmas: `Lemmas/Fetch.lean`).  All statements are
 executable model `Model/Fetch.lean` of `concurrentGrab` / `chunkedGrab` / `grabSourcesAndBases`
 (internal/driver/fetch.go) and hold for ALL numbers of sources, ALL outcome functions
 (`outs : Nat → Res ε α`, which source yields which profile or which error), ALL completion
-orders and — where chunking is involved — EVERY chunk size `c ≥ 1` (the literal of the code is
-regenerated into `Gen/FetchConsts.lean` on every run and only has to be positive).
+orders and — where chunking is involved — EVERY chunk size `c ≥ 1` (the facts about the chunk loop of
+the code are regenerated into `Gen/FetchConsts.lean` on every run).
 
 What is assumed of `combineProfiles` is the explicit hypothesis `MergeSpec` (C03's subject); the
 last section ("composed with C03") proves `MergeSpec` for C03's model of `profile.Merge` and restates
@@ -188,21 +188,29 @@ theorem fails_iff_group_empty {merge : List α → Outcome α} {Good : α → Pr
             simp [successes, absSum] at h3
             exact h3
 
-/-! ### the regenerated constant -/
+/-! ### the facts regenerated from the current source (`Gen/FetchConsts.lean`)
 
-/-- The chunk size extracted from the current source is positive, so every theorem above applies
-to it (with 0 the Go loop would not terminate; the model then reports a panic). -/
-theorem extracted_chunk_size_pos : 1 ≤ Gen.FetchConsts.chunkSize ∧ Gen.FetchConsts.barrierBeforeScan = true := by
-  decide
+The translator emits what it RECOGNISES (`none`/"unknown" otherwise — the dynamic checks of
+`harness/c16.go` then carry that fact alone), so the obligations are conditional. -/
 
-/-- `chunked_eq_flat` at the chunk size of the code. -/
+/-- When recognised: the chunk size of the code is positive, consecutive chunks start exactly one
+chunk length apart (no source skipped, none fetched twice) and no chunk exceeds the chunk size —
+the shape `Fetch.chunkLoop` has for `c = chunkSize`. Re-decided by the kernel on every run. -/
+theorem extracted_chunking_wellformed :
+    (∀ c, Gen.FetchConsts.chunkSize? = some c → 1 ≤ c) ∧
+    (∀ a b, Gen.FetchConsts.chunkStep? = some a → Gen.FetchConsts.chunkSpan? = some b →
+      a = b ∧ 1 ≤ a ∧ ∀ c, Gen.FetchConsts.chunkSize? = some c → b ≤ c) :=
+  chunkFactsOk_spec _ _ _ (by decide)
+
+/-- `chunked_eq_flat` at the chunk size of the code (when recognised). -/
 theorem chunked_eq_flat_extracted {merge : List α → Outcome α} {Good : α → Prop} {abs : α → β}
     {add : β → β → β} (hm : MergeSpec merge Good abs add) (outs : Nat → Res ε α) (n : Nat)
-    (π : List Nat) (hg : ∀ i p, i < n → outs i = .ok p → Good p) (hc : Complete π n) :
-    ∃ g, chunkedGrab merge outs Gen.FetchConsts.chunkSize n π = ⟨failures outs 0 n, .ok g⟩ ∧
+    (π : List Nat) (hg : ∀ i p, i < n → outs i = .ok p → Good p) (hc : Complete π n)
+    (c : Nat) (hcs : Gen.FetchConsts.chunkSize? = some c) :
+    ∃ g, chunkedGrab merge outs c n π = ⟨failures outs 0 n, .ok g⟩ ∧
       GroupSpec Good abs add outs n (failures outs 0 n) g := by
   obtain ⟨g, _, h1, _, _, _, _, h2⟩ :=
-    chunked_eq_flat hm outs Gen.FetchConsts.chunkSize n extracted_chunk_size_pos.1 π hg hc
+    chunked_eq_flat hm outs c n (extracted_chunking_wellformed.1 c hcs) π hg hc
   exact ⟨g, h1, h2⟩
 
 /-! ### non-vacuity: the hypotheses are met by a non-trivial instance, and the barrier matters -/
